@@ -122,7 +122,7 @@ pub fn run(args: &[String]) -> ! {
     let cap = ctx.opt_u64("cap").unwrap_or(ctx.pick(400, 5000));
     // quick: four of the eight transaction kinds, every point of their commit; thorough: all
     // eight, every point from the start of the transaction
-    let kinds: Vec<usize> = if ctx.quick() && ctx.replay.is_none() { vec![0, 1, 4, 6] } else { (0..TXNS.len()).collect() };
+    let kinds: Vec<usize> = if ctx.quick() && ctx.replay.is_none() { vec![0, 1, 4, 6, 8] } else { (0..TXNS.len()).collect() };
     let workers = kv_engine::product::ncpu().min(16);
     let only: Option<(usize, u64)> = ctx.replay.as_ref().map(|r| (r["case"]["txn"].as_u64().unwrap_or(0) as usize, r["case"]["crash_at"].as_u64().unwrap_or(0)));
     // reference restarts: no transaction (n = never, transaction not run) and completed transaction
